@@ -19,21 +19,41 @@ def RCOut.fmt : RCOut → String
   | .ints l => fmtInts l
   | .panic => "panic"
 
+/-- driver-level operations around the modelled ones: `snap` keeps a JSON snapshot of the counter, `restore` unmarshals the
+    kept snapshot INTO THE LIVE counter (which may have moved on since): afterwards the counter is in the snapshot's state,
+    and the property's history is the history up to the snapshot -/
+inductive RCLine where
+  | op (o : RCOp) | snap | restore
+
+def parseRCLine (line : String) : Option RCLine :=
+  if line == "snap" then some .snap else if line == "restore" then some .restore else (parseRCOp line).map .op
+
+/-- model and spec outputs, line by line; state = (model counter, reversed history, kept snapshot of both) -/
+def rcLines (n : Nat) (w : Int) : RC → List RCOp → Option (RC × List RCOp) → List RCLine → List (RCOut × RCOut)
+  | _, _, _, [] => []
+  | c, h, sv, .snap :: rest => (.ok, .ok) :: rcLines n w c h (some (c, h)) rest
+  | c, h, sv, .restore :: rest =>
+    (match sv with
+     | some (c', h') => (.ok, .ok) :: rcLines n w c' h' sv rest
+     | none => (.ok, .ok) :: rcLines n w c h sv rest)
+  | c, h, sv, .op o :: rest =>
+    let (c', out) := c.step o
+    (out, SpecC13.out n w h o) :: rcLines n w c' (o :: h) sv rest
+
 /-- suite `rc`: one output line `model<TAB>spec` per op line -/
 def suiteRC (kvs : List (String × String)) (lines0 : List (String × String)) : List String :=
   let lines := lines0.map (·.1)
   let n := kvNat kvs "n" 1
   let w := kvInt kvs "w" 1
-  match lines.mapM parseRCOp with
+  match lines.mapM parseRCLine with
   | none => lines.map fun _ => "bad-op\tbad-op"
   | some ops =>
-    let m := (RC.new n w).run ops
-    let s := SpecC13.run n w ops
+    let ms := rcLines n w (RC.new n w) [] none ops
     -- the property speaks about positive bucket counts and widths only: no spec opinion outside
     -- `str d`: the harness itself compares StringAt's text with the three getters; here only "did it panic"
     let isStr := lines.map fun l => l.startsWith "str "
     let strFmt (o : RCOut) : String := match o with | .panic => "panic" | _ => "ok"
-    ((m.zip s).zip isStr).map fun ((a, b), st) =>
+    (ms.zip isStr).map fun ((a, b), st) =>
       (if st then strFmt a else a.fmt) ++ "\t" ++ (if n = 0 ∨ w ≤ 0 then "-" else (if st then strFmt b else b.fmt))
 
 end CM
